@@ -40,7 +40,7 @@ run_one() {
     echo "SELFTEST skipped  $prop $patch (does not apply to the current tree)"; rm -rf "$s"; return
   fi
   out=$(GOVC_REPO="$s/rolling-shutter" GOVC_OUT="$s/out" GOVC_SELFTEST=1 timeout 1200 /verif/bin/govc check -prop "$prop" -tier quick 2>&1); code=$?
-  first=$(echo "$out" | grep -m1 '^VIOLATION' | sed 's/ replay=[^ ]*//' | cut -c1-220)
+  first=$(echo "$out" | grep '^VIOLATION' | sed 's/.*obligation="//; s/\[.*//' | sort | uniq -c | awk '{printf "%s(x%s) ", $2, $1}' | cut -c1-400)
   if [ $code -eq 1 ] && [ -n "$first" ]; then echo "SELFTEST detected $prop $patch :: $first"
   else echo "SELFTEST MISSED   $prop $patch (exit $code) $(echo "$out" | tail -1 | cut -c1-160)"; fi
   rm -rf "$s"
